@@ -20,6 +20,14 @@ def debug_impl(items, name):
     if not fmt:
         return None
     s = join(fmt[0].body)
+    # the same calls written as statements on a local (`let mut d = f.debug_struct(..); d.field(..); ..; d.finish()`) are the
+    # chain: every DebugStruct method returns the receiver
+    ms = re.match(r"^let mut (\w+) = (f \. debug_struct \( stringify ! \( \S+ \) \)) ; (.*)$", s)
+    if ms:
+        v, rest = ms.group(1), ms.group(3)
+        calls = rest.split(" ; ")
+        if all(c.startswith(v + " . ") for c in calls):
+            s = ms.group(2) + " " + " ".join(c[len(v) + 1:] for c in calls)
     m = re.match(r"^f \. debug_struct \( stringify ! \( (\S+) \) \) (.*)\. finish \( \)$", s)
     if not m:
         raise ValueError("unexpected Debug body: " + s[:200])
@@ -45,9 +53,11 @@ def builder_desc(items, name):
         return None
     s = join(b[0].body)
     part = "Partial" + name
+    s = re.sub(r"\bSelf\b", name, s)     # `Self` is the struct inside its inherent impl
     if s == "%s ( %s : : DEFAULT )" % (part, name):
         start = "DEFAULT"
-    elif s == "%s ( %s : : new_with_raw_value ( 0 ) )" % (part, name):
+    elif s in ("%s ( %s : : new_with_raw_value ( 0 ) )" % (part, name), "%s ( %s : : ZERO )" % (part, name)):
+        # ZERO is checked to be the zero value by the `zero` operation of every declaration (C06)
         start = "zero"
     else:
         m = re.match(r"^const ZERO : (\S+) = (\S+) : : new \( 0 \) ; %s \( %s : : new_with_raw_value \( ZERO \) \)$" % (re.escape(part), re.escape(name)), s)
@@ -93,6 +103,9 @@ def enum_desc(items, name):
     if not rv or not nw:
         raise ValueError("conversion functions missing")
     s = join(rv[0].body)
+    ml = re.match(r"^let (\w+) = (self as u\d+) ; (.*)$", s)
+    if ml and len(re.findall(r"\b%s\b" % ml.group(1), ml.group(3))) == 1:
+        s = re.sub(r"\b%s\b" % ml.group(1), ml.group(2), ml.group(3))     # a local used once
     m = re.match(r"^arbitrary_int : : UInt : : < (u\d+) , (\d+)usize > : : new \( self as (u\d+) \)$", s)
     if m and m.group(1) == m.group(3):
         raw = ("uint", m.group(1), int(m.group(2)))
@@ -102,6 +115,8 @@ def enum_desc(items, name):
             raise ValueError("unexpected raw_value body: " + s[:200])
         raw = ("native", m.group(1))
     s = join(nw[0].body)
+    if s.startswith("let value = value . value ( ) ; match value {"):
+        s = "match value . value ( ) {" + s[len("let value = value . value ( ) ; match value {"):]     # the scrutinee bound to a local first
     m = re.match(r"^match value( \. value \( \))? \{ (.*) \}$", s)
     if not m:
         raise ValueError("unexpected new_with_raw_value body: " + s[:200])
